@@ -833,7 +833,7 @@ impl<'a> Gen<'a> {
                 // ed25519: genuine signature, sometimes corrupted
                 use ed25519_dalek::Signer;
                 let sk = ed25519_dalek::SigningKey::from_bytes(&self.r.bytes32());
-                let len = self.r.below(30);
+                let len = if !tiny() && self.r.chance(0.05) { 8 * self.size(5, 1000) as usize + self.r.below(8) } else { self.r.below(30) };
                 let mut msg = self.r.bytes(len);
                 let sig = sk.sign(&msg).to_bytes();
                 let mut key = sk.verifying_key().to_bytes();
